@@ -247,6 +247,20 @@ pub fn c16(g: &mut Gen) {
         g.group(lines);
     }
     g.group(vec!["sp - builder 5 6 0 : t0".to_string(), "sp - builder 5 6 1 : t0 t0 t0 t0 t0 t0 c".to_string()]);
+    // vectors built through `try_from_iter` from the TAIL of another sparse vector's own iterator (sets and multisets):
+    // the internal builder sees `size_hint`, one `next_back`, then the forward iteration
+    for (n, multi, vals) in [(40u64, 0u64, vec![0u64, 7, 8, 9, 31, 32, 39]), (9, 1, vec![0, 0, 3, 3, 3, 8]), (5, 1, vec![4, 4, 4, 4]), (100, 0, (0..30).map(|i| i * 3 + 1).collect::<Vec<u64>>()), (1, 0, vec![0])] {
+        let mut lines = vec![format!("sp S build {} {} {}", n, multi, vals_str(&vals))];
+        for k in 0..=(vals.len() as u64 + 1) {
+            lines.push(format!("sp T from_skip S {}", k));
+            if k < vals.len() as u64 {
+                lines.push("sp T len".to_string()); lines.push("sp T ones".to_string()); lines.push("sp T ser".to_string());
+                for r in [0u64, 1, (vals.len() as u64 - k) / 2, vals.len() as u64 - k - 1, vals.len() as u64 - k] { lines.push(format!("sp T select {}", r)); }
+                for x in [0u64, n / 2, n - 1, n] { lines.push(format!("sp T rank {}", x)); }
+            }
+        }
+        g.group(lines);
+    }
     // builders over universes up to usize::MAX: parameters, acceptance and conversion must not depend on the magnitude
     for (n, cap, multi) in [(MAXU, 3u64, 0), (MAXU, 100, 0), (MAXU, 2, 1), ((1u64 << 63) + (1u64 << 59), 1, 0), ((1u64 << 63) + 7, 4, 1), (MAXU - 1, 1, 0)] {
         let step = n / (cap + 1);
